@@ -38,7 +38,17 @@ def views_of(sigs):
 
 def merge_specs(specs):
     from sigtools import signatures
+    from vlib.framework import stable_hash
     sigs = [realfn.sig_of(s, 'f%d' % i) for i, s in enumerate(specs)]
+    if stable_hash([universe.spec_text(s) for s in specs]) % 4 == 0:
+        # the signature objects are shared between cases (cached): now and then they go through another operation first;
+        # what merge then says about them must not depend on it
+        for sg in sigs:
+            for args in ((1,), (0, 'a'), (0, 'b')):
+                try:
+                    signatures.mask(sg, *args)
+                except ValueError:
+                    pass
     return signatures.merge(*sigs)
 
 
